@@ -72,6 +72,8 @@ def run(ctx):
         sc[name + "|v1"] = {"script": name, "cfg": {}}
         if not quick or name in ("pingpong", "hs_only"):
             sc[name + "|v2cubic"] = {"script": name, "cfg": {"version": V2, "cc": "cubic"}}
+    for name in ("hs_only", "pingpong"):
+        sc[name + "|compat"] = {"script": name, "cfg": {"version": V1, "c_supported": [V2, V1], "s_supported": [V2, V1]}}
     agg = netcheck.explore_scenarios(ctx, "c12", sc, 1, "d1", sig_extra=sig_extra)
     small = ["pingpong", "pings", "hs_only", "small_sparse", "bigchain_hs"]
     if quick:
